@@ -44,6 +44,17 @@ def run(P, rep, tier):
     I.stubs.update(util_stubs)
     shapes = capture_record_shapes(P)
     H = DomReaderHarness(P, shapes, open_options=False)
+
+    def all_options_hook(i, sid, rec):
+        # every option name the specification defines is present in every content header, so that code touching an
+        # option only "if present" is exercised by the observers
+        if sid in ('diffx', '.change', '..file'):
+            return
+        for v in rec.items.values():
+            if isinstance(v, ADict):
+                for k_ in ('encoding', 'line_endings', 'indent', 'mimetype', 'format', 'type'):
+                    v.items.setdefault(k_, Unk('%s#%d' % (k_, i), kinds=['str'], taint=['INPUT']))
+    H.record_hook = all_options_hook
     H.install(I)
     wcls = P.cls('pydiffx.dom.writer', 'DiffXDOMWriter')
     for c in list(D.classes.values()) + [H.rcls, wcls]:
@@ -106,6 +117,39 @@ def run(P, rep, tier):
                           'sections %s and %s of one tree share their %s container' % (dup[0][1], dup[0][2], dup[0][0]))
         else:
             rep.ok(r2, 'sections within a tree', {'sections': len(secs)})
+
+    # ---- scenario A2: assigning content never stores a module/class-level object ----------------------
+    for cname in ('DiffXMetaSection', 'DiffXPreambleSection', 'DiffXFileDiffSection'):
+        if cname not in D.classes:
+            continue
+        for label, mk in (('an empty mapping', lambda: ADict({}, name='caller-dict')), ('an empty string', lambda: ''),
+                          ('empty bytes', lambda: b''), ('an unknown value', lambda: Unk('value', taint=['ARG']))):
+            st_ = {}
+
+            def assign(cname=cname, mk=mk):
+                t = D.build_tree(I)
+                o = t[cname]
+                I.frames = []
+                st_['o'] = o
+                I.set_attr(o, 'content', mk(), None)
+                return o
+            n_ = 0
+            for path in I.explore(assign):
+                n_ += 1
+                if n_ > 400:
+                    break
+                if path.outcome != 'return':
+                    continue
+                o = path.value
+                for cid, (obj, where) in containers(o).items():
+                    sh = getattr(obj, 'shared', None)
+                    if sh and isinstance(obj, (ADict, AList)):
+                        rep.violation(r2, 'shared-default-stored:%s' % cname, '%s:%d' % (o.cls.module.relpath, o.cls.node.lineno),
+                                      'assigning %s to %s.content stores the class-level object %s in the section (%s): every section given '
+                                      'empty content shares it, and filling one in changes all of them and every later tree'
+                                      % (label, cname, sh, where), path=['%s.content' % cname])
+        rep.ok(r2, '%s.content assignment stores no class-level container' % cname) if not any(
+            v['key'].endswith('shared-default-stored:%s' % cname) for v in rep.violations) else None
 
     # ---- scenario B: two parses with one reader object (+ havoc of per-call state) ----
     stored_outside = {}
